@@ -230,7 +230,27 @@ func checkC20(w *World, r *Report) {
 		if req == nil {
 			continue
 		}
-		edges := NilEdges(q, map[ssa.Value]bool{req: true}, false)
+		// the nil test of the request: in the handler, or in an error-returning helper that is handed the request
+		reqSpec := GuardSpec{Name: "request != nil", IsVal: func(v ssa.Value) bool { return v == ssa.Value(req) },
+			Edges: func(fn *ssa.Function, bind Bind, isVal func(ssa.Value) bool) []Edge {
+				vals := map[ssa.Value]bool{}
+				for _, b := range fn.Blocks {
+					i := blockIf(b)
+					if i == nil {
+						continue
+					}
+					base, _ := stripNot(i.Cond)
+					if bo, ok := base.(*ssa.BinOp); ok && (bo.Op == token.EQL || bo.Op == token.NEQ) {
+						if isNilConst(bo.Y) && isVal(bo.X) {
+							vals[bo.X] = true
+						} else if isNilConst(bo.X) && isVal(bo.Y) {
+							vals[bo.Y] = true
+						}
+					}
+				}
+				return NilEdges(fn, vals, false)
+			}}
+		edges, _ := cg.guardEdgesIn(q, Bind{}, reqSpec, 0)
 		bad := 0
 		uses := 0
 		for _, ref := range *req.Referrers() {
@@ -328,7 +348,7 @@ func (iv *Inv) bech32Rejects(fn *ssa.Function, isField func(ssa.Value) bool, dep
 				return true, "in " + funcName(fn)
 			}
 		}
-		if depth >= 2 || len(s.Callees) != 1 || s.Invoke {
+		if depth >= 4 || len(s.Callees) != 1 || s.Invoke {
 			continue
 		}
 		callee := s.Callees[0]
